@@ -56,7 +56,19 @@ def gen_vectors(rng, n_random, directed):
         sp = c02.specials(F)
         full = [0, 1, top - 1, top - 2, top >> 1, (top >> 1) - 1, int('55' * F.nb, 16), int('aa' * F.nb, 16)] + [((1 << 64) - 1) << (64 * i) for i in range(F.bits // 64)] + \
                [top - (1 << (64 * i)) for i in range(F.bits // 64)] + [(1 << (32 * i)) - 1 for i in range(1, F.bits // 32)]
-        ints = full + [rng.getrandbits(F.bits) for _ in range(n_random)]
+        def special_words(limit=None):
+            """operand whose words are mostly extreme values (0, 1, all-ones, top bit, half words): maximal and minimal partial products and carries"""
+            while True:
+                v = 0
+                for k in range(F.bits // 64):
+                    t = rng.random()
+                    wv = rng.choice([0, 1, (1 << 64) - 1, (1 << 64) - 2, 1 << 63, (1 << 63) - 1, (1 << 32) - 1, 1 << 32, 0xffffffff00000000, 0x00000000ffffffff + 1]) if t < 0.75 else rng.getrandbits(64)
+                    v |= wv << (64 * k)
+                if limit is None or v < limit:
+                    return v
+                v %= limit
+                return v
+        ints = full + [rng.getrandbits(F.bits) for _ in range(n_random)] + [special_words() for _ in range(n_random)]
         if directed:
             for a in full:
                 for b in full[::2]:
@@ -141,13 +153,14 @@ def gen_vectors(rng, n_random, directed):
             V.append(('mul', F, {'a': a, 'b': b}))
             V.append(('sqr', F, {'a': a}))
             V.append(('shl1', F, {'a': a}))
-            x, y = rng.randrange(p), rng.randrange(p)
+            x, y = (rng.randrange(p), rng.randrange(p)) if rng.random() < 0.6 else (special_words(p), special_words(p))
             V.append(('fpadd', F, {'a': x, 'b': y}))
             V.append(('fpsub', F, {'a': x, 'b': y}))
             V.append(('fpdbl', F, {'a': x}))
             V.append(('fpmul', F, {'a': x, 'b': y}))
             V.append(('fpsqr', F, {'a': x}))
             V.append(('mred', F, {'T': rng.randrange(p * top)}))
+            V.append(('mred', F, {'T': special_words(p) * special_words(p)}))
     # aliasing pattern per vector (only patterns the signatures allow)
     out = []
     for kind, F, prm in V:
